@@ -402,6 +402,7 @@ func deref(t types.Type) (types.Type, bool) {
 
 func c06(c *Ctx) {
 	r := c.R
+	r.Explain = "Both sides of every shared eBPF map are computed from source: the Go key/value type at each Put/Update/Lookup/Delete/NextKey/Iterate.Next call on a map field bound by coll.Maps[name] is laid out by encoding/binary's rules (what cilium/ebpf v0.12.3 writes and reads); the C key/value type of the map of that name is laid out by clang (constant-evaluated sizeof/offsetof probe).  Sizes, scalar boundaries byte by byte, offsets of equally named fields and the slice requirement of per-CPU maps are compared; so are all Go structs that mirror a C struct by name, and all shared numeric constants.  Key helpers are summarised by symbolic execution of their SSA into byte compositions (which input byte lands in which byte of the key, and whether that depends on the input length) and compared with the composition the kernel program builds from packet bytes; value fields the program copies raw into or compares raw with the frame must be written as wire images, fields it byte-swaps as host numbers.  Circuit-id padding beyond its length constant and big-endian hosts are not decided."
 	r.Rule("C06.layout", "for every call on a map the control plane shares with a kernel program, the bytes encoding/binary produces for the Go key/value type have the size, scalar boundaries and (for equally named fields) offsets of the C declaration of that map's key/value; per-CPU maps are read into slices", 60)
 	r.Rule("C06.bound", "every *ebpf.Map field used by the control plane is bound to a map the C sources declare (or is documented as having no kernel declaration)", 20)
 	r.Rule("C06.events", "structs exchanged through perf/ring buffers and statistics structs mirror the C declaration", 2)
